@@ -63,6 +63,7 @@ package roprometheus
 //@   props C19 C09 C14
 //@   binds subscriberCtx destination counter source
 //@   calls Inc SubscribeWithContext
+//@   params subscriberCtx destination
 //@   track counter.* source.*
 //@   ensures [one-increment-then-pass-through|C19] trace(counter.Inc(), source.SubscribeWithContext(subscriberCtx, destination))
 //@   ensures [releases-the-source|C14] result == bound_Unsubscribe(res(source.SubscribeWithContext))
@@ -73,6 +74,7 @@ package roprometheus
 //@   props C19 C14
 //@   binds instrumentedPipe stdPipe source
 //@   calls SubscribeWithContext fn:t4 isPrometheusEnabled wrapPipeWithObservability
+//@   params subscriberCtx destination
 //@   track call.isPrometheusEnabled call.wrapPipeWithObservability callfn.* p().* wrapPipeWithObservability().*
 //@   ensures [licence-checked-per-subscription|C19] count(call.isPrometheusEnabled) == 1
 //@   ensures [licensed-subscribes-the-instrumented-composition|C19] res(call.isPrometheusEnabled) == true ==> called(call.wrapPipeWithObservability) && arg(call.wrapPipeWithObservability, 1) == instrumentedPipe
